@@ -26,6 +26,8 @@ type HistConfig struct {
 	PConverge      float64
 	PGlobals       float64
 	PFailAfterEdit float64 // motif: edit, then a failing All run
+	PCancel        float64 // the caller's context is cancelled at some callback
+	PWarm          float64 // before a run, the same process runs the same module in a scratch copy (another directory)
 	PRetag         float64 // in-place change of a declaration's tags (never combined with mid-run edits)
 	PUniform       float64 // every run uses the same generators, scripts and globals (enables the final-state oracle T5)
 	PReal          float64 // a world for the real devpkg generators
@@ -164,7 +166,12 @@ func (w *histWorld) injectFault(r *Rng, run *RunOp, kind string) {
 			}
 		}
 		file := w.pkgFile(pi, w.base+"."+g+".go")
-		switch r.Intn(6) {
+		if r.P(0.7) {
+			file += ".tmp" // where the bytes go first (the destination is only renamed into place)
+		}
+		switch r.Intn(7) {
+		case 6:
+			run.Faults = append(run.Faults, proto.Fault{ExecSeq: -1, Kind: "os.rename", Path: w.pkgFile(pi, w.base+"."+g+".go.tmp") + " -> " + w.pkgFile(pi, w.base+"."+g+".go"), Phase: "exec", Nth: 0, Do: "errno:" + Pick(r, []string{"EACCES", "EIO", "ENOSPC"})})
 		case 0:
 			run.Faults = append(run.Faults, proto.Fault{ExecSeq: -1, Kind: "os.open", Path: file, Phase: "exec", Nth: 0, Do: "errno:" + Pick(r, []string{"EACCES", "ENOSPC", "EMFILE", "EISDIR"})})
 		case 1:
@@ -184,6 +191,15 @@ func (w *histWorld) injectFault(r *Rng, run *RunOp, kind string) {
 		}
 	case "kill":
 		run.Faults = append(run.Faults, proto.Fault{ExecSeq: r.Intn(250), Do: Pick(r, []string{"kill", "kill", "kill-after:1"})})
+	case "cancel":
+		// the caller's context is cancelled at some callback (gengo may ignore that or fail, but must not
+		// return nil from a run it cut short)
+		for _, g := range run.Gens {
+			if isScripted(&g) {
+				run.Faults = append(run.Faults, proto.Fault{ExecSeq: -1, Kind: Pick(r, []string{"gen", "gen", "defer", "new"}), Gen: g.Name, Nth: r.Intn(4), Do: "cancel"})
+				break
+			}
+		}
 	case "midedit":
 		pi := r.Intn(len(w.m.Pkgs))
 		w.edits++
@@ -307,7 +323,16 @@ func DrawHistory(r *Rng, cfg HistConfig) (*Scenario, *histWorld) {
 					faulty++
 				case r.P(cfg.PMidEdit):
 					w.injectFault(r, run, "midedit")
+				case r.P(cfg.PCancel):
+					w.injectFault(r, run, "cancel")
 				}
+			}
+			if r.P(cfg.PWarm) {
+				// the same process has served the same module from ANOTHER directory just before
+				wr := *run
+				wr.Faults = nil
+				ops = append(ops, Op{Kind: "warm", Run: &wr})
+				run.Fresh = false
 			}
 			ops = append(ops, Op{Kind: "run", Run: run})
 		}
@@ -442,7 +467,7 @@ func runHistory(c *CheckCtx, i int, r *Rng, cfg HistConfig) error {
 // SimC06: dispatch of GenerateType/GenerateAliasType/Defer over the tag lattice
 // and declaration kinds, under adversarial map orders.
 func SimC06(c *CheckCtx, i int, r *Rng) error {
-	return runHistory(c, i, r, HistConfig{MinOps: 1, MaxOps: 4, PAll: 0.6, PForce: 0.5, PGlobals: 0.5, PSubsetGens: 0.2, PEdit: 0.1, PRetag: 0.3})
+	return runHistory(c, i, r, HistConfig{MinOps: 1, MaxOps: 4, PAll: 0.6, PForce: 0.5, PGlobals: 0.5, PSubsetGens: 0.2, PEdit: 0.1, PRetag: 0.3, PCancel: 0.15, PWarm: 0.05})
 }
 
 // SimC07: gengo only touches its own output files.
@@ -452,11 +477,11 @@ func SimC07(c *CheckCtx, i int, r *Rng) error {
 		return SimC08(c, i, r)
 	}
 	return runHistory(c, i, r, HistConfig{MinOps: 3, MaxOps: 7, PAll: 0.6, PForce: 0.3, PGlobals: 0.2, PSubsetGens: 0.5, PEdit: 0.15, PStale: 0.25,
-		PSumOps: 0.05, PBreak: 0.08, PGenFault: 0.12, PIOFault: 0.12, PKill: 0.1, PConverge: 0.2, PMute: 0.35, PDepOutside: 0.5, PReal: 0.1, PUniform: 0.3})
+		PSumOps: 0.05, PBreak: 0.08, PGenFault: 0.12, PIOFault: 0.12, PKill: 0.1, PConverge: 0.2, PMute: 0.35, PDepOutside: 0.5, PReal: 0.1, PUniform: 0.3, PCancel: 0.05, PWarm: 0.1})
 }
 
 // SimC08: the gengo.sum cache against the reference model.
 func SimC08(c *CheckCtx, i int, r *Rng) error {
 	return runHistory(c, i, r, HistConfig{MinOps: 4, MaxOps: 9, PAll: 0.85, PForce: 0.15, PGlobals: 0.1, PSubsetGens: 0.2, PEdit: 0.3, PStale: 0.05,
-		PSumOps: 0.2, PUnhashable: 0.06, PBreak: 0.04, PGenFault: 0.1, PIOFault: 0.12, PKill: 0.08, PMidEdit: 0.1, PConverge: 0.6, PFailAfterEdit: 0.12, PMute: 0.1, PReal: 0.08, PUniform: 0.4})
+		PSumOps: 0.2, PUnhashable: 0.06, PBreak: 0.04, PGenFault: 0.1, PIOFault: 0.12, PKill: 0.08, PMidEdit: 0.1, PConverge: 0.6, PFailAfterEdit: 0.12, PMute: 0.1, PReal: 0.08, PUniform: 0.4, PCancel: 0.04, PWarm: 0.06})
 }
